@@ -19,8 +19,9 @@ class SeedSeqModel:
 
     def spawn(self, n_children):
         out = []
-        for i in range(self.n_children_spawned, self.n_children_spawned + n_children):
-            out.append(SeedSeqModel(self.entropy, spawn_key=self.spawn_key + (i,), pool_size=self.pool_size))
+        for i in range(n_children):
+            out.append(SeedSeqModel(self.entropy, spawn_key=self.spawn_key + (self.n_children_spawned + i,),
+                                    pool_size=self.pool_size))
         self.n_children_spawned += n_children
         return out
 
